@@ -123,6 +123,56 @@ def make(maxdeps):
     return fn
 
 
+
+FS_BOUND = {"quick": 20, "thorough": 40}
+
+
+def make_fault(bound):
+    """A combine over two experiments (root and package p), run twice (the second time with --again); in one of the two
+    invocations at most one file-system call under cond-out fails with EACCES (vlib.faults; invocation and position are
+    decision variables).  The invocation may fail - but when it exits 0 every entry must resolve to the directory the
+    dependency wrote in that invocation."""
+    def fn(g):
+        import conductor.cli.run as cli_run
+        from vlib import faults
+        deps = [TaskSpec("d0", "run_experiment", [], pkg=""), TaskSpec("d1", "run_experiment", [], pkg="p")]
+        cspec = TaskSpec("c", "combine", [":d0", "//p:d1"], pkg="")
+        which = g.choose("faulted_run", 2)
+        k = g.choose("fault_at", bound + 1)
+        proj = hrun.Project()
+        try:
+            proj.write_tasks(deps + [cspec])
+            cout = proj.out / "c.task"
+            fired = None
+            for r in range(2):
+                sched = graphs.SymSched(g, all_ok=True, on_spawn=hrun.snapshot_on_spawn)
+                kern = fakeos.Kernel(sched, clock=fakeos.Clock(lambda i, r=r: 1000.0 + 10 * r))
+                flt = faults.OneFault(k if r == which else 0, proj.out)
+                res = hrun.invoke(faults.with_faults(cli_run.main, flt), hrun.run_ns(task_identifier=cspec.ident, again=(r == 1)), str(proj.root), kern)
+                fired = fired or flt.fired
+                D = "run %d faulted_run=%d fault=%s" % (r, which, flt.fired)
+                g.note("max fault-eligible calls", flt.n)
+                if isinstance(res.status, str) and not (flt.fired and res.status in ("exc:OSError", "exc:PermissionError")):
+                    g.require(False, "combine:crash:" + res.status, "%r; %s" % (res.exc, D))
+                if not flt.fired:
+                    g.require(res.status == 0, "combine:run-failed", "status=%r err=%r; %s" % (res.status, res.err[-200:], D))
+                if res.status != 0:
+                    break
+                written = {p.name: p.env["COND_OUT"] for p in kern.tasks()}
+                for s in deps:
+                    target = written.get(s.name)
+                    g.require(target is not None, "combine:dependency-not-run", "%s; %s" % (s.ident, D))
+                    link = cout / s.name
+                    g.require(os.path.lexists(link) and os.path.realpath(link) == os.path.realpath(target), "combine:entry-wrong-or-missing",
+                              "%s -> %s, expected the directory the dependency wrote: %s; cond run exited 0; %s" % (
+                                  link, os.path.realpath(link) if os.path.lexists(link) else None, target, D))
+            if fired:
+                g.goal("injected fault fired")
+            return {"nontrivial": bool(fired), "sample": {"case": "faulted_run=%d fault=%s" % (which, fired)}}
+        finally:
+            proj.cleanup()
+    return fn
+
 def scale_fn(g):
     """A combine over 12 dependencies (more than any worker/batch count), two runs."""
     import conductor.cli.run as cli_run
@@ -215,6 +265,10 @@ def spaces(tier):
     sp = [Space("deps2", make(2), "1..2 dependencies of kinds {experiment, command, group} in packages {root, p, p/q}, command output "
                 "empty or not, combine task in {root, p}, pre-existing entry {none, dir, file, link}, one or two runs (second with --again)",
                 depth=7, goals=goals, outside=["dangling links made by hand", ">3 dependencies"])]
+    sp.append(Space("fs-fault", make_fault(FS_BOUND[tier]), "combine over two experiments (root, p), run then run --again; in one of the two invocations at most one "
+                    "file-system call made on behalf of Conductor under cond-out fails with EACCES (invocation and position k <= %d are decision "
+                    "variables); a failing invocation is accepted, an exit 0 with a wrong or missing entry is not" % FS_BOUND[tier], depth=6,
+                    goals=["injected fault fired"], outside=["more than one fault", "other errno values", "faults of stat and of calls relative to a directory fd"]))
     sp.append(Space("scale-twelve-deps", scale_fn, "a combine over 12 dependencies (experiments and commands in 4 packages), combine in the root or "
                     "3 packages deep, one or four runs (--again)", depth=3, goals=["combine over more than eight dependencies"]))
     sp.append(Space("two-combines-one-invocation", two_combines_fn, "5 tasks: combine c1 over d1, d2; experiment e depending on c1; combine c2 over d1 and e; "
